@@ -1,6 +1,7 @@
 package main
 
 import (
+	"fmt"
 	"encoding/base64"
 	"go/types"
 
@@ -228,17 +229,35 @@ func init() {
 			return nil, true
 		})
 	}
-	reg("crypto/sha256.Sum256", func(in *Interp, fn *ssa.Function, args []value) (value, bool) {
-		d := mkSha("sha256", strOfSlice(in, args[0].(*Slice)))
-		if d.Kind != sBytes {
-			panic(engineErr("sha256.Sum256 on symbolic data yields an array; unsupported"))
+	sumArray := func(alg string, n int) summaryFn {
+		return func(in *Interp, fn *ssa.Function, args []value) (value, bool) {
+			d := mkSha(alg, strOfSlice(in, args[0].(*Slice)))
+			a := make(Array, n)
+			if d.Kind == sBytes {
+				for i := range a {
+					a[i] = d.B[i]
+				}
+				return a, true
+			}
+			// opaque digest as a fixed-size array: one fresh byte symbol per position, the same symbols for
+			// the same data (functional; injectivity is not modelled for array digests)
+			key := "digestarray:" + d.Key()
+			bs, ok := in.extra[key].([]*Term)
+			if !ok {
+				for i := 0; i < n; i++ {
+					bs = append(bs, in.newSym(8, fmt.Sprintf("digest%d", i)))
+				}
+				in.extra[key] = bs
+			}
+			for i := range a {
+				a[i] = bs[i]
+			}
+			return a, true
 		}
-		a := make(Array, 32)
-		for i := range a {
-			a[i] = d.B[i]
-		}
-		return a, true
-	})
+	}
+	reg("crypto/sha256.Sum256", sumArray("sha256", 32))
+	reg("crypto/sha512.Sum512", sumArray("sha512", 64))
+	reg("crypto/sha512.Sum384", sumArray("sha384", 48))
 
 	// ---- go-multihash on ghost digests ----
 	mhPkg := "github.com/multiformats/go-multihash"
